@@ -40,3 +40,25 @@ V('C02', 'neg-field-reordered', P, 'edb.schema.pointers.Pointer',
         allow_ddl_set=True,''', '''    readonly = so.SchemaField(
         bool,
         allow_ddl_set=(True),''', None)
+
+V('C02', 'link-source-delete-undiffed', 'edb/schema/links.py', 'edb.schema.links.Link',
+  '''        default=LinkSourceDeleteAction.Allow,
+        coerce=True,
+        compcoef=0.9,''', '''        default=LinkSourceDeleteAction.Allow,
+        coerce=True,''', 'C02.R1', 'Link.on_source_delete')
+V('C02', 'rename-compares-short-name', 'edb/schema/delta.py', 'edb.schema.delta.RenameObject._get_ast',
+  'if (orig_ref.module, orig_ref.name) != (ref.module, ref.name):', 'if orig_ref.name != ref.name:', 'C02.R4', 'compares-qualified-name')
+V('C02', 'diamond-drop-deletes', 'edb/schema/referencing.py', 'edb.schema.referencing.DeleteReferencedInheritingObject._propagate_child_ref_deletion',
+  'if child_ref.get_owned(schema) or implicit_bases:', 'if child_ref.get_owned(schema):', 'C02.R4', 'other-parent')
+V('C02', 'owned-child-ref-deleted', 'edb/schema/referencing.py', 'edb.schema.referencing.DeleteReferencedInheritingObject._propagate_child_ref_deletion',
+  'if child_ref.get_owned(schema) or implicit_bases:', 'if implicit_bases:', 'C02.R4', '_propagate_child_ref_deletion:owned')
+V('C02', 'owned-drop-not-rendered', 'edb/schema/referencing.py', 'edb.schema.referencing.DeleteReferencedInheritingObject._get_ast',
+  "            and not self.get_orig_attribute_value('owned')\n", '', 'C02.R4', 'owned-rendered')
+# negative control: compare whole refs through a helper tuple
+V('C02', 'neg-rename-compare-restructured', 'edb/schema/delta.py', 'edb.schema.delta.RenameObject._get_ast',
+  '''        if (orig_ref.module, orig_ref.name) != (ref.module, ref.name):
+            return astnode(new_name=ref)  # type: ignore
+        else:
+            return None''', '''        if orig_ref.module == ref.module and orig_ref.name == ref.name:
+            return None
+        return astnode(new_name=ref)  # type: ignore''', None)
